@@ -385,6 +385,7 @@ pub fn model(net: Network, theta: u32, n: usize, diffs: &[u8], thresholds: &[u32
     let mut alpha = Alphabet::tree(n, diffs);
     alpha.thresholds = thresholds.to_vec();
     alpha.max_threshold_changes = max_tc;
+    alpha.noop_ingest = true; // "never withheld" is judged at every ingestion opportunity
     ChainModel {
         cfg: WorldCfg::on(net, theta),
         alpha,
